@@ -166,11 +166,7 @@ def registration(ctx) -> None:
     ctx.check(len(conts) == 1 and sorted(cfg.cguards(conts[0], sel.node)) == sorted([ref_t, (tab_t[0], False)]), 'C14.registration', sel, 'only elements of referenced non-table sources are skipped', conts[0] if conts else sel.node, key='select:skip')
     # the only reader
     vt = prog.func(f'{PARSER}:Visitor.visit_table')
-    shared.stmt_under(ctx, 'C14.registration', vt, 'predicate = self.generate_feature(predicate)', [('predicate is not None', True)], 'an offered row filter is translated to target code like any other feature', 'visit_table:translate', inlined=False)
-    text = core.src(vt.node)
-    ctx.check('self.context.tables[source].fields' in text and 'self.context.tables[source].predicate' in text, 'C14.registration', vt, 'visit_table hands the segment of the visited table to generate_table', vt.node, key='visit_table:segment')
-    call = next((c for c in core.calls_in(vt.node) if isinstance(c.func, ast.Attribute) and c.func.attr == 'generate_table'), None)
-    ctx.check(call is not None and [core.src(a) for a in call.args] == ['origin', 'features', 'predicate'], 'C14.registration', vt, 'generate_table(origin, features, predicate) in declaration order', vt.node, key='visit_table:args')
+    _visit_table(ctx, vt)
     # sibling: lazy column extractor
     cols = prog.cls(f'{LAZY}:_Columns')
     for members, mname in ((qmembers, 'visit_query'), (jmembers, 'visit_join')):
@@ -189,6 +185,77 @@ def registration(ctx) -> None:
                     gs = [(core.src(t), pol) for t, pol in cfg.guards(c, fn.node, siblings=False)]
                     okg = all((t == f'{var}.{m} is not None' and pol) or (t == f'{var}.{m} is None' and not pol) for t, pol in gs)
                     ctx.check(okg, 'R-SIBLING', fn, f'`{var}.{m}` is visited whenever it is present (guards: {gs})', c, key=f'{mname}:{m}:guard')
+
+
+def _visit_table(ctx, vt) -> None:
+    """visit_table hands generate_table (origin, translated fields of the table's segment, translated row filter of the same
+    segment - or None under an alias / without a filter).  Decided on the normal form of the function by evaluating the
+    third argument over the four cases (aliased?, filter absent?) - so temporaries, nesting and arm order do not matter."""
+    nf = vt.normal().node
+    defs: dict = {}
+    for st in nf.body:
+        if isinstance(st, ast.Assign) and len(st.targets) == 1 and isinstance(st.targets[0], ast.Name):
+            defs.setdefault(st.targets[0].id, []).append(st.value)
+    single = {k: v[0] for k, v in defs.items() if len(v) == 1}
+
+    def resolve(e: ast.AST) -> ast.AST:
+        class R(ast.NodeTransformer):
+            def visit_Name(self, n):  # noqa: N802
+                if isinstance(n.ctx, ast.Load) and n.id in single:
+                    return resolve(single[n.id])
+                return n
+
+        return R().visit(ast.parse(ast.unparse(e), mode='eval').body)
+
+    seg = 'self.context.tables[source]'
+    pred = f'{seg}.predicate'
+
+    def value(e: ast.AST, env: dict):
+        """NONE / PRED / ('gen', PRED) / None (unknown)."""
+        if isinstance(e, ast.Constant) and e.value is None:
+            return 'NONE'
+        if ast.unparse(e) == pred:
+            return 'NONE' if env['absent'] else 'PRED'
+        if isinstance(e, ast.IfExp):
+            t = truth(e.test, env)
+            return None if t is None else value(e.body if t else e.orelse, env)
+        if isinstance(e, ast.Call) and ast.unparse(e.func) == 'self.generate_feature' and len(e.args) == 1 and not e.keywords:
+            inner = value(e.args[0], env)
+            return ('gen', inner) if inner == 'PRED' else None
+        return None
+
+    def truth(t: ast.AST, env: dict):
+        if isinstance(t, ast.UnaryOp) and isinstance(t.op, ast.Not):
+            v = truth(t.operand, env)
+            return None if v is None else not v
+        if isinstance(t, ast.BoolOp):
+            for v in t.values:
+                b = truth(v, env)
+                if b is None:
+                    return None
+                if b != isinstance(t.op, ast.And):
+                    return b
+            return isinstance(t.op, ast.And)
+        if ast.unparse(t) == 'self.context.aliased':
+            return env['aliased']
+        if isinstance(t, ast.Compare) and len(t.ops) == 1 and isinstance(t.ops[0], (ast.Is, ast.IsNot)) and isinstance(t.comparators[0], ast.Constant) and t.comparators[0].value is None:
+            v = value(t.left, env)
+            if v is None:
+                return None
+            return (v == 'NONE') == isinstance(t.ops[0], ast.Is)
+        return None
+
+    call = next((c for c in ast.walk(nf) if isinstance(c, ast.Call) and isinstance(c.func, ast.Attribute) and c.func.attr == 'generate_table'), None)
+    args = [resolve(a) for a in call.args] if call is not None and len(call.args) == 3 and not call.keywords else []
+    ctx.check(len(args) == 3, 'C14.registration', vt, 'generate_table(origin, features, predicate) in declaration order', vt.node, key='visit_table:args')
+    if len(args) != 3:
+        return
+    table = {(a, n): value(args[2], {'aliased': a, 'absent': n}) for a in (False, True) for n in (False, True)}
+    want = {(False, False): ('gen', 'PRED'), (False, True): 'NONE', (True, False): 'NONE', (True, True): 'NONE'}
+    ctx.check(table == want, 'C14.registration', vt, f'an offered row filter of the bare table is translated to target code like any other feature; none under an alias (aliased, absent) -> {table}', vt.node, key='visit_table:translate')
+    feats = args[1]
+    okf = isinstance(feats, ast.ListComp) and len(feats.generators) == 1 and not feats.generators[0].ifs and ast.unparse(feats.generators[0].iter) == f'sorted({seg}.fields)' and isinstance(feats.elt, ast.Call) and ast.unparse(feats.elt.func) == 'self.generate_feature' and [ast.unparse(a) for a in feats.elt.args] == [ast.unparse(feats.generators[0].target)]
+    ctx.check(okf and ast.unparse(args[0]) == 'self.resolve_source(source)', 'C14.registration', vt, 'visit_table hands the resolved origin and every translated field of the segment of the visited table to generate_table', vt.node, key='visit_table:segment')
 
 
 def lazy_columns(ctx) -> None:
